@@ -292,10 +292,12 @@ def decode_boundary(buf):
 #         (no time tag in U/V records); then a one-word dummy record
 # ---------------------------------------------------------------------------
 def met_times(spec):
+    """(YYYYJJJ, HHMM as float) per step: the meteorological files carry the
+    time of day as HHMM"""
     out = []
     d, h = spec['sdate'], float(spec['stime'])
     for t in range(spec['nt']):
-        out.append((d, h))
+        out.append((d, float(int(h) * 100 + int(round((h - int(h)) * 60)))))
         d, h = add_hours(d, h, 1.0)
     return out
 
